@@ -1,4 +1,5 @@
 import Tengo.Model.F0
+import Tengo.Model.F1
 import Tengo.Model.SpecEval
 import Tengo.Model.Bytecode
 /-!
@@ -72,18 +73,14 @@ def resolveE : Nat → RS → Expr → Option (Ex × RS)
         pure (.cond c' t' f', rs)
     | _ => none
 
-def stmsOfList : List Stm → Stms
+def stmsOfList : List F1.Stm → F1.Stms
   | [] => .nil
   | s :: ss => .cons s (stmsOfList ss)
-
-def stmsAppend : Stms → Stms → Stms
-  | .nil, b => b
-  | .cons s ss, b => .cons s (stmsAppend ss b)
 
 mutual
   /-- One source statement resolves to a list of F0 statements (an `if` with an init statement
   yields the init followed by the conditional). -/
-  def resolveS : Nat → RS → Stmt → Option (List Stm × RS)
+  def resolveS : Nat → RS → Stmt → Option (List F1.Stm × RS)
     | 0, _, _ => none
     | d + 1, rs, s =>
       match s with
@@ -133,15 +130,32 @@ mutual
             let (e', rs5) ← resolveS d rs4 st
             pure (pre ++ [.ifelse c' (stmsOfList b') (stmsOfList e')], { rs5 with scopes := rs5.scopes.drop 1 })
       | .block ss => resolveBlock d rs ss
+      | .fors ini c post body => do
+          -- loops without break/continue: init; `for cond { body; post }`
+          let rs1 := { rs with scopes := [] :: rs.scopes }
+          let (pre, rs2) ← match ini with
+            | some st => resolveS d rs1 st
+            | none => some ([], rs1)
+          let (c', rs3) ← match c with
+            | some c => do let (x, r) ← resolveE d rs2 c; pure (some x, r)
+            | none => some (none, rs2)
+          let (b', rs4) ← resolveBlock d rs3 body
+          let (p', rs5) ← match post with
+            | some st => resolveS d rs4 st
+            | none => some ([], rs4)
+          let loop : F1.Stm := match c' with
+            | some x => .whil x (stmsOfList (b' ++ p'))
+            | none => .forever (stmsOfList (b' ++ p'))
+          pure (pre ++ [loop], { rs5 with scopes := rs5.scopes.drop 1 })
       | _ => none
   /-- A block: its own scope unless empty. -/
-  def resolveBlock : Nat → RS → List Stmt → Option (List Stm × RS)
+  def resolveBlock : Nat → RS → List Stmt → Option (List F1.Stm × RS)
     | 0, _, _ => none
     | _ + 1, rs, [] => some ([], rs)
     | d + 1, rs, ss => do
         let (out, rs') ← resolveList d { rs with scopes := [] :: rs.scopes } ss
         pure (out, { rs' with scopes := rs'.scopes.drop 1 })
-  def resolveList : Nat → RS → List Stmt → Option (List Stm × RS)
+  def resolveList : Nat → RS → List Stmt → Option (List F1.Stm × RS)
     | 0, _, _ => none
     | _ + 1, rs, [] => some ([], rs)
     | d + 1, rs, s :: ss => do
@@ -164,12 +178,12 @@ def encodeIns (is : List Ins) : Tengo.Model.Bytes :=
   is.flatMap (fun i => let (op, args) := i.toInstr; Tengo.Model.encodeInstr op args)
 
 /-- Main function of a program of the fragment: statements then SUSPEND. -/
-def compileMain (ss : List Stmt) : Option (Tengo.Model.Bytes × RS × Stms) :=
+def compileMain (ss : List Stmt) : Option (Tengo.Model.Bytes × RS × F1.Stms) :=
   match resolveList 4000 {} ss with
   | none => none
   | some (stms, rs) =>
     let st := stmsOfList stms
-    some (encodeIns (compSs 0 st) ++ [UInt8.ofNat Opcodes.opSuspend], rs, st)
+    some (encodeIns (F1.compSs 0 st) ++ [UInt8.ofNat Opcodes.opSuspend], rs, st)
 
 /-! ### the data semantics of the reference interpreter restricted to scalars -/
 
